@@ -228,6 +228,34 @@ def run(ctx):
                 ctx.fail('C11/eval-exception', f'use of an old model after switch-then-fit raised {type(e).__name__}', {'history': history, 'spec': spec}, str(e)[:200])
             ctx.tally('directed_fit_first', f'{tb}/{tp}/{ncode}')
             del old_model; gc.collect()
+    # ---------------- directed: the same model fitted under one backend at BOTH precisions (compiled objectives are cached per model by
+    # the jitting backends: a cache entry made at one precision must not serve the other); data handed over as a plain list, as users do
+    for (tb, first, second) in ([('jax', '32b', '64b')] + ([('jax', '64b', '32b'), ('pytorch', '32b', '64b')] if ctx.thorough else [])):
+        for via in ([None, ('numpy', '64b')] if ctx.thorough else [[None, ('numpy', '64b')][ctx.seed % 2]]):
+            pyhf.set_backend('numpy', 'scipy', precision='64b')
+            spec, _ = gen_spec.gen_spec(rng, max_channels=2, max_samples=2, max_bins=2, want={'normsys', 'histosys'})
+            mk = lambda: pyhf.Model(spec, poi_name='mu')
+            model = mk()
+            d = [float(x) for x in np.asarray(model.expected_data(np.asarray(model.config.suggested_init(), dtype=np.float64)), dtype=float)]
+            history = [['create', 'model'], ['set_backend', tb, first, 'scipy'], ['fit', 0]] + ([['set_backend', via[0], via[1], 'scipy']] if via else []) + [['set_backend', tb, second, 'scipy'], ['fit', 0]]
+            try:
+                pyhf.set_backend(tb, 'scipy', precision=first)
+                try: pyhf.infer.mle.fit(d, model)
+                except Exception: pass  # noqa — a single-precision fit may fail to converge; what matters is what it leaves behind
+                if via: pyhf.set_backend(via[0], 'scipy', precision=via[1])
+                pyhf.set_backend(tb, 'scipy', precision=second)
+                tl = pyhf.tensorlib
+                try:
+                    _, f1 = pyhf.infer.mle.fit(d, model, return_fitted_val=True); _, f2 = pyhf.infer.mle.fit(d, mk(), return_fitted_val=True)
+                except Exception as e:  # noqa
+                    if second == '32b': continue
+                    raise
+                f1 = float(np.asarray(tl.tolist(f1))); f2 = float(np.asarray(tl.tolist(f2))); ctx.count()
+                if abs(f1 - f2) > (1e-9 if second == '64b' else 1e-4) * (1 + abs(f2)):
+                    ctx.fail('C11/fit-vs-fresh', 'fit objective on a model fitted earlier at the other precision differs from a fresh model', {'history': history, 'spec': spec, 'data': d}, f1, f2)
+            except Exception as e:  # noqa
+                ctx.fail('C11/eval-exception', f'a fit after a precision change raised {type(e).__name__}', {'history': history, 'spec': spec}, str(e)[:200])
+            ctx.tally('directed_two_precisions', f'{tb}/{first}->{second}' + ('/via-numpy' if via else ''))
     # ---------------- directed: an object dies *during* the dispatch (a subscriber of the caller releases the last reference to an object
     # subscribed earlier); objects subscribed after it must still be refreshed
     class _Cache:
